@@ -42,6 +42,7 @@ class C15(core.Check):
             '(absolute argument strings) and every permutation / duplication / symlink alias of the include directories; every '
             'output must be byte-identical to the baseline run\'s (scratch-directory paths normalised). '
             'distinct_nontrivial = distinct (program, variation) pairs whose baseline succeeded.')
+    rule = rule + ' ' + 'Enumeration keys that differ in letter case only are used side by side.'
     assumptions = ('BESPOKEASM_* environment variables are inputs (click reads them), not noise: never set',
                    'absolute scratch-directory paths printed by the listing are normalised before comparison')
     chunk = 2500
